@@ -21,6 +21,7 @@ ASSUMPTIONS = [
 
 
 # ------------------------------------------------------------------ reference (R-area)
+EPS_H = 2e-6   # enthalpy values closer than this (relative) are the same breakpoint: assigned utility duties carry the 6-dp rounding of the temperature grid
 def balanced_entities(prob, target):
     """[(lo, hi, duty, htc)] for the hot and the cold side: process streams + utilities with their assigned duty, REAL temperatures."""
     hot, cold = [], []
@@ -56,7 +57,7 @@ def curve(ents):
 def T_at(Ts, Hs, h, side):
     """Temperature at enthalpy h on a non-decreasing curve; on a flat part (temperature gap) side='right' takes the upper end, 'left' the lower end."""
     n = len(Ts)
-    eps = 1e-9 * max(1.0, Hs[-1])
+    eps = EPS_H * max(1.0, Hs[-1])
     if side == "left":
         for i in range(n):
             if Hs[i] >= h - eps:
@@ -79,7 +80,7 @@ def bath_area(hot, cold):
     # merge near-duplicates
     g = [grid[0]]
     for h in grid[1:]:
-        if h - g[-1] > 1e-7 * max(1.0, grid[-1]):
+        if h - g[-1] > EPS_H * max(1.0, grid[-1]):
             g.append(h)
     area = 0.0
     n_int = 0
@@ -102,7 +103,7 @@ def bath_area(hot, cold):
     # a temperature gap strictly inside the enthalpy range of either composite
     for Ts, Hs in ((Th, Hh), (Tc, Hc)):
         for i in range(1, len(Ts)):
-            if abs(Hs[i] - Hs[i - 1]) <= 1e-9 * max(1.0, Hs[-1]) and 1e-9 < Hs[i] < Hs[-1] - 1e-9:
+            if abs(Hs[i] - Hs[i - 1]) <= EPS_H * max(1.0, Hs[-1]) and EPS_H < Hs[i] < Hs[-1] - EPS_H:
                 has_gap = True
     return area, n_int, has_gap
 
